@@ -1451,17 +1451,17 @@ def families(quick):
                       B("inproc", "local-fetch", [P, Pd(1)]),
                       B("inproc", "local-fetch", [L, Pd(2)], maxwants=1),
                       B("inproc", "local-fetch", [P], fams=("r",), maxwants=1),
-                      B("inproc", "local-push", [P], rtag=True),
+                      B("inproc", "local-push", [P], rtag=True, maxwants=2),
                       B("inproc", "local-push", [L], maxwants=1),
                       clone(("packed", "loose"), (None, 1, 2))]))
         fams.append(("in-process B: n<=3 all DAGs x tree rules 1,2 x 6 decorations",
                      histories(small, [R1, R2], DECOS),
                      [mem((None,), False, 3),
-                      B("inproc", "local-fetch", [P], maxwants=2),
+                      B("inproc", "local-fetch", [P], maxwants=1),
                       B("inproc", "local-push", [P], maxwants=1),
                       clone(("packed",), (None,))]))
-        fams.append(("in-process C: n=4 all 56 DAGs x tree rule 0 x {none,tc,t2}",
-                     histories(n4, [R0], ("none", "tc", "t2")),
+        fams.append(("in-process C: n=4 all 56 DAGs x tree rule 0 x {none,tc}",
+                     histories(n4, [R0], ("none", "tc")),
                      [mem((None,), False, 2)]))
         fams.append(("in-process D: 12 named 4-commit shapes x tree rule 0 x {none,tc,t2}",
                      histories(named, [R0], ("none", "tc", "t2")),
@@ -1545,7 +1545,7 @@ def proto_families(quick):
         depth_rows = [o(depth=1), o(depth=2), o(depth=1, ack="single"), o(depth=2, nodone=1)] if not quick else [o(depth=1)]
         lazy = dict(net="lazy") if tcp else {}
         if tcp:  # the client polls for early answers only on stateful transports
-            ack_rows += [o(net="lazy", ack="single"), o(net="lazy", ack="multi"), o(net="lazy")]
+            ack_rows += [o(net="lazy", ack="single"), o(net="lazy")] + ([] if quick else [o(net="lazy", ack="multi")])
             depth_rows += [o(net="lazy", depth=1), o(net="lazy", depth=2)]
         fams.append(("%s A: n<=3 all DAGs, no tags" % tr, PA, [
             PB(tr, "fetch", ack_rows + depth_rows + ([o(storage="loose", **lazy)] if full else []), maxwants=w_small),
@@ -1580,9 +1580,9 @@ def proto_families(quick):
     # ---- dulwich client -> C git upload-pack / receive-pack: + thin-pack, ofs-delta, side-band-64k, v0/v2
     tr = "cgit-srv"
     fams.append(("cgit-srv A: n<=3 all DAGs, no tags", PA, [
-        PB(tr, "fetch", [o(pv=2), o(pv=0), o(pv=0, net="lazy"), o(pv=0, net="lazy", ack="single"),
+        PB(tr, "fetch", [o(pv=2), o(pv=0), o(pv=0, net="lazy", ack="single"),
                          o(pv=0, net="lazy", ack="single", thin=0, ofs=0, sb=0), o(pv=2, depth=1), o(pv=0, net="lazy", depth=2)] +
-           ([] if quick else [o(pv=0, net="lazy", ack="multi"), o(pv=0, ack="single"), o(pv=0, ack="multi"),
+           ([] if quick else [o(pv=0, net="lazy"), o(pv=0, net="lazy", ack="multi"), o(pv=0, ack="single"), o(pv=0, ack="multi"),
                               o(pv=2, net="lazy", depth=2), o(pv=0, net="lazy", depth=1)]),
            maxwants=w_small),
         PB(tr, "fetch", [o(pv=0, depth=1)], maxwants=1),
